@@ -30,3 +30,12 @@ Print Assumptions C17_idempotent.
 Example C17_example :
   clean [97; 32; 98; 10; 33]%N = Some (Ok [97; 95; 98; 95]%N) /\ legal [97; 95; 98; 95]%N = true.
 Proof. vm_compute. split; reflexivity. Qed.
+
+(* The property's consequence for spreadsheets: EVERY non-empty heading - blank-only, line breaks included - is cleaned to
+   a legal anchor (never to the empty string), so it can become a column of a heading-row schema that validates. *)
+Theorem C17_heading_column : forall s r : list N, s <> [] -> clean s = Some (Ok r) -> legal r = true.
+Proof. exact clean_nonempty_legal. Qed.
+Print Assumptions C17_heading_column.
+
+Example C17_blank_heading : clean [32; 10]%N = Some (Ok [95]%N).
+Proof. vm_compute. reflexivity. Qed.
